@@ -270,9 +270,11 @@ fn run_arguments<'a>(
 /// Bound: one concrete input.  The parameter loop of `arguments` jumps back 9
 /// times (parameters 2..=10), the 10th pass leaves at the separator; every other
 /// loop (white space, digits, stubbed utf-8 check) runs at most once on this
-/// input; unwind 11.
+/// input; unwind 10 (= 9 jumps back; the unwinding assertion proves that there is
+/// no 10th).  A larger bound only adds spurious passes (see `run_arguments`),
+/// each costs about 90 s of symbolic execution.
 #[kani::proof]
-#[kani::unwind(11)]
+#[kani::unwind(10)]
 #[kani::stub(core::str::from_utf8, ascii_only_from_utf8)]
 fn k_arguments_max_10() {
     let input: &[u8] = b"1,2,3,4,5,6,7,8,9,0\n";
